@@ -6,6 +6,7 @@ import (
 	"fmt"
 	"net"
 	"os"
+	"os/exec"
 	"path/filepath"
 	"regexp"
 	"runtime"
@@ -157,7 +158,13 @@ func mainRun(bin, scratch string, idx int, c mainCase) (mainObs, mainSetup, erro
 	if su.skip != "" {
 		return mainObs{}, su, nil
 	}
-	p, err := ptyx.Start(bin, su.args, ptyx.Opts{NoTTY: !c.TTY, Dir: dir, Env: []string{"HOME=" + dir, "XDG_CACHE_HOME=" + filepath.Join(dir, "xdg")}})
+	prog, pargs := bin, su.args
+	if c.Sst == "flood-1cpu" {
+		if ts, err := exec.LookPath("taskset"); err == nil {
+			prog, pargs = ts, append([]string{"-c", "0", bin}, su.args...)
+		}
+	}
+	p, err := ptyx.Start(prog, pargs, ptyx.Opts{NoTTY: !c.TTY, Dir: dir, Env: []string{"HOME=" + dir, "XDG_CACHE_HOME=" + filepath.Join(dir, "xdg")}})
 	if err != nil {
 		return mainObs{}, su, err
 	}
@@ -182,7 +189,7 @@ func mainRun(bin, scratch string, idx int, c mainCase) (mainObs, mainSetup, erro
 		time.Sleep(30 * time.Millisecond)
 		// bring the healthy run into the state in which the operator ends it
 		var conn net.Conn
-		if m := reListen.FindSubmatch(p.Output()); m != nil && (c.Sst == "half" || c.Sst == "shell" || c.Sst == "muted" || c.Sst == "flood") {
+		if m := reListen.FindSubmatch(p.Output()); m != nil && (c.Sst == "half" || c.Sst == "shell" || c.Sst == "muted" || c.Sst == "flood" || c.Sst == "flood-1cpu") {
 			if conn, err = dialTLS(string(m[1])); err == nil {
 				defer conn.Close()
 				if c.Sst == "half" {
@@ -201,7 +208,7 @@ func mainRun(bin, scratch string, idx int, c mainCase) (mainObs, mainSetup, erro
 		case "typed":
 			p.Type([]byte("half a line"))
 			time.Sleep(30 * time.Millisecond)
-		case "flood":
+		case "flood", "flood-1cpu":
 			if conn != nil {
 				stop := make(chan struct{})
 				defer close(stop)
